@@ -367,6 +367,9 @@ func newickDrive(args []string) error {
 			var txt []byte
 			p, _ := catch(func() { txt, _ = root.MarshalText() })
 			buf := &bytes.Buffer{}
+			if sid%4 == 1 {
+				failedWriteFirst(root.Write)
+			}
 			p2, _ := catch(func() {
 				if err := root.Write(buf); err != nil {
 					ev.WSame = false
